@@ -8,7 +8,7 @@ import (
 
 type c08Key string
 
-//verif:entry property=C08 tier=both bounds="n<=N handlers each sync/async x plain/context-aware; cancellation point in {never, before the call (cancelled, or ended by its deadline), by handler k (which may then panic)}; event published as its own type or as an interface value; every subset of the four publish hooks, optionally a store at any position among them and the context-aware before hook given twice" cover="cancelled-before,cancelled-by-handler,never-cancelled" N_quick=2 N_thorough=3
+//verif:entry property=C08 tier=both bounds="n<=N handlers each sync/async x plain/context-aware; cancellation point in {never, before the call (cancelled, or ended by its deadline), by a before hook, by handler k (which may then panic), by the filter of handler k}; event published as its own type or as an interface value; every subset of the four publish hooks, optionally a store at any position among them and the context-aware before hook given twice" cover="cancelled-before,cancelled-by-handler,never-cancelled" N_quick=2 N_thorough=3
 func harnessC08Hooks() {
 	N := vParam("N", 2)
 	var mu sync.Mutex
@@ -19,6 +19,7 @@ func harnessC08Hooks() {
 		mu.Unlock()
 	}
 	hookB, hookBC, hookA, hookAC := vBool(), vBool(), vBool(), vBool()
+	var cancelFromHook context.CancelFunc // set when a before hook is the one that cancels the publish context
 	wantT := reflect.TypeOf(evA{})
 	hookArgsOK := true
 	var opts []Option
@@ -31,6 +32,9 @@ func harnessC08Hooks() {
 		e, ok := ev.(evA)
 		hookArgsOK = hookArgsOK && t == wantT && ok && e.N == 42
 		rec(1)
+		if cancelFromHook != nil {
+			cancelFromHook()
+		}
 	}
 	if hookB && !plainViaSetters {
 		opts = append(opts, WithBeforePublish(fnB))
@@ -40,6 +44,9 @@ func harnessC08Hooks() {
 			e, ok := ev.(evA)
 			hookArgsOK = hookArgsOK && t == wantT && ok && e.N == 42
 			rec(2)
+			if cancelFromHook != nil {
+				cancelFromHook()
+			}
 		}))
 	}
 	fnA := func(t reflect.Type, ev any) {
@@ -89,7 +96,15 @@ func harnessC08Hooks() {
 	ctx := context.WithValue(base, key, val)
 
 	n := vInt(0, N)
-	cancelAt := vInt(-2, n-1)   // -2 never, -1 before the call, k>=0: handler k cancels
+	cancelAt := vInt(-3, n-1)   // -3 a before hook cancels, -2 never, -1 before the call, k>=0: handler k (or its filter) cancels
+	hookCancels := cancelAt == -3 && ((hookB && !plainViaSetters) || hookBC) && !dupBC
+	if cancelAt == -3 && !hookCancels {
+		cancelAt = -2
+	}
+	if hookCancels {
+		cancelFromHook = cancel
+	}
+	byFilter := cancelAt >= 0 && vBool() // the filter of handler cancelAt cancels the context and accepts the event
 	panicAfterCancel := vBool() // the cancelling handler also panics afterwards
 	async := make([]bool, n)
 	ctxAware := make([]bool, n)
@@ -114,7 +129,7 @@ func harnessC08Hooks() {
 				}
 				mu.Unlock()
 			}
-			if i == cancelAt {
+			if i == cancelAt && !byFilter {
 				mu.Lock()
 				cancelledSoFar = true
 				mu.Unlock()
@@ -131,9 +146,18 @@ func harnessC08Hooks() {
 				}
 			}
 			rec(200 + i)
-			if i == cancelAt && panicAfterCancel {
+			if i == cancelAt && panicAfterCancel && !byFilter {
 				panic("cancelled and gave up")
 			}
+		}
+		if i == cancelAt && byFilter {
+			so = append(so, WithFilter(func(e evA) bool {
+				mu.Lock()
+				cancelledSoFar = true
+				mu.Unlock()
+				cancel()
+				return true
+			}))
 		}
 		if ctxAware[i] {
 			SubscribeContext(bus, func(hc context.Context, e evA) { body(hc) }, so...)
@@ -217,6 +241,27 @@ func harnessC08Hooks() {
 		vAssert(idx(4) > lastSyncEnd && idx(4) < atReturn, "after-hook-follows-sync-handlers")
 	}
 	switch {
+	case hookCancels:
+		// cancelled by a before hook: the publish reaches its handlers already cancelled
+		vAssert(firstHandler == len(trace), "precancelled-no-handler-runs")
+		vCover("cancelled-before")
+	case cancelAt >= 0 && byFilter:
+		// cancelled while the filter of handler k was being asked: neither that handler nor any
+		// synchronous handler behind it is started
+		started := false
+		for i, t := range trace {
+			if t == 100+cancelAt {
+				started = true
+			}
+			_ = i
+		}
+		vAssert(!started, "no-sync-handler-after-cancel")
+		for k := cancelAt + 1; k < n; k++ {
+			if !async[k] {
+				vAssert(count(100+k) == 0, "no-sync-handler-after-cancel")
+			}
+		}
+		vCover("cancelled-by-handler")
 	case cancelAt == -1:
 		vAssert(firstHandler == len(trace), "precancelled-no-handler-runs")
 		vCover("cancelled-before")
